@@ -156,7 +156,13 @@ def run(prop, tier, replay=None):
             why = "not-idempotent"
         else:
             why = "block-content(lang/config/comments/passing-lines)"
-        V.violation(f"{why}:{kinds}:outcomes={','.join(r['outcomes'])}", WHAT,
+        key = f"{why}:{kinds}:outcomes={','.join(r['outcomes'])}"
+        # the C09 collision (an output line `> x` directly after the command is re-read as a continuation) seen through update:
+        # a NON-passing test whose first output line starts with `> `
+        gt_first = any(oc != "pass" and bytes(o["stdout"][:2]) == b"> " for oc, o in zip([x for x in r["outcomes"] if x != "none"], r["outputs"]))
+        if gt_first and (not o["same_commands"] or not o["reparse_passes"] or not o["idempotent"]):
+            key = "collision:first-output-line-of-a-failing-test-looks-like-a-continuation"
+        V.violation(key, WHAT,
                     {"vector": vec_of.get(rid // 100), "outcomes": r["outcomes"], "document": [l["txt"] for l in r["lines"]],
                      "updated": r["updated"], "observed": o, "escaper": r["escaper"]})
     # the command at file level: specs/UpdateCommand.tla against runs of the real binary
